@@ -17,7 +17,7 @@ MIN_NONTRIVIAL = {"quick": 200, "thorough": 2000}
 RULE = ("cases = a data class (Schema 3/4, DataClass 1/4) with 1-4 fields of type int / str / List[int] / Optional[int] that are "
         "required or defaulted, aliased, case-insensitive, no_output (True or value-dependent), immutable (Field(immutable=True) or Final[T] with/without an explicit Field), plus optionally a "
         "@property with dependencies on a field; class Options over addition None/True/False/int, collect_errors, immutable, "
-        "ignore_delete_nonexistent; a valid initial input; then a history of 1-12 operations from {setattr, delattr, "
+        "ignore_delete_nonexistent; a valid initial input; then a history of 1-12 operations (update / |= also with another instance of the same class as argument) from {setattr, delattr, "
         "__setitem__, __delitem__, update(mapping|kwargs|pairs), pop (with/without default), popitem, setdefault, clear, |=, "
         "copy (operations continue on the copy AND the original)} with arguments valid / convertible / invalid / unknown key. "
         "Invariants after every operation: I1 every present field conforms (no unparsed data, no sentinel), I2 required fields "
@@ -167,7 +167,8 @@ def gen_op(rng, base, fields, prop):
         for _ in range(rng.choice([1, 1, 1, 2, 3])):
             k, f = gen_key(rng, fields)
             m[k] = gen_value(rng, f) if f else rng.choice([1, "6", "x"])
-        form = rng.choice(["mapping", "kwargs", "pairs"]) if kind == "update" else "mapping"
+        form = rng.choice(["mapping", "kwargs", "pairs", "instance"]) if kind == "update" else rng.choice(["mapping", "mapping", "instance"])
+        # ("instance": the argument is another instance of the same class, built from the initial input overlaid with m)
         return (kind, form, m)
     if kind == "copy":
         return (kind, rng.choice(["continue-on-copy", "continue-on-original"]), None)
@@ -325,6 +326,9 @@ def check_invariants(case, inst, snap, init_snap):
     return out
 
 
+_CUR = {}
+
+
 def apply(inst, op):
     kind, a, b = op
     if kind == "setattr":
@@ -345,6 +349,15 @@ def apply(inst, op):
         return inst.setdefault(a, b)
     if kind == "clear":
         return inst.clear()
+    if kind in ("update", "ior") and a == "instance":
+        try:
+            src = type(inst).__from__(dict(_CUR.get("init", {}), **b))
+        except Exception:
+            src = dict(b)
+        if kind == "update":
+            return inst.update(src)
+        inst |= src
+        return None
     if kind == "update":
         if a == "mapping":
             return inst.update(dict(b))
@@ -372,6 +385,7 @@ def run_case(case, ctx):
             ctx.count("init_rejected")
             return
         inst = o0.value
+        _CUR["init"] = dict(case["init"])
         init_snap = Snap(inst, case)
         bad0 = check_invariants(case, inst, init_snap, init_snap)
         shape = (case["base"], tuple((f["type"], f["required"], bool(f["alias"]), f["ci"], f["no_output"], f["immutable"]) for f in case["fields"]),
